@@ -206,13 +206,30 @@ static void wlPoolOnce() {
   std::vector<std::vector<ProducerOp>> plans;
   for (int p = 0; p < nProd; ++p)
     plans.push_back(planProducer(6, 40));
+  // an admin thread may resize the pool (also to zero, and leave it there) while producers submit:
+  // whatever the pool's size history, every task must have run once when the destructor returns
+  std::vector<int> sizes;
+  if (chance(1, 3)) {
+    int n = range(1, 3);
+    for (int i = 0; i < n; ++i)
+      sizes.push_back(chance(1, 2) ? 0 : range(0, 4));
+  }
+  sim_note("resizes", (int64_t)sizes.size());
+  sim_note("lastsize", sizes.empty() ? -1 : sizes.back());
   std::vector<std::thread> producers;
   for (int p = 1; p < nProd; ++p)
     producers.emplace_back(producerThread, plans[(size_t)p]);
+  if (!sizes.empty())
+    producers.emplace_back([&ctx, sizes]() {
+      for (int sz : sizes) {
+        sim_work(1 + (int)(sim_step() % 7));
+        ctx.pool->resize((ssize_t)sz);
+      }
+    });
   producerThread(plans[0]);
   for (auto& t : producers)
     t.join();
-  if (waitQuiescent) {
+  if (waitQuiescent && (sizes.empty() || sizes.back() > 0)) {
     // poll without helping
     for (int i = 0; i < 200000 && ctx.outstanding > 0; ++i)
       sim_sleep_ns(20000);
